@@ -28,6 +28,17 @@ VARIANTS = {  # name -> (drain_all, barrier)
 }
 
 
+def load_corpus_dir(pid):
+    """minimised / interesting cases kept as files in corpus/<pid>/*.json, run first"""
+    d = os.path.join(os.path.dirname(os.path.dirname(os.path.abspath(__file__))), "corpus", pid)
+    out = []
+    if os.path.isdir(d):
+        for fn in sorted(os.listdir(d)):
+            if fn.endswith(".json"):
+                out.append(json.load(open(os.path.join(d, fn))))
+    return out
+
+
 # ------------------------------------------------------------------ script generation
 def corpus_scripts():
     out = []
@@ -152,7 +163,8 @@ def script_oracle(tr):
         if len(ids) > tr["max_batch"]:
             pass  # batch size is not part of the property; the model replay reports it as a tie difference
     if tr.get("exited"):
-        lost = [i for i in accepted if i not in delivered and i not in errored]
+        failed_ids = set(i for ids in failed for i in ids)
+        lost = [i for i in accepted if i not in delivered and i not in errored and i not in failed_ids]
         lost_h = [i for i in lost if i in hooked]
         lost_q = [i for i in lost if i not in hooked]
         if lost_q:
@@ -384,8 +396,12 @@ def run(ctx):
                         "sync.RWMutex: Lock is acquired only while no reader holds the lock (the LWBarrier guard)",
                         "the error handler's own bounded fan-out queue (actor.enqueueCoalescedFailure) is C18's subject"]
     rng = ctx.rng
-    scripts = corpus_scripts()
-    n_gen = 160 if ctx.thorough else 40
+    scripts = load_corpus_dir('C27') + corpus_scripts()
+    if ctx.replay_path and os.path.exists(ctx.replay_path):  # bin/check C27 --replay replays/C27-...json
+        rp = json.load(open(ctx.replay_path)).get("replay", {})
+        if isinstance(rp.get("script"), dict):
+            scripts.insert(0, dict(rp["script"], name="replay-" + rp["script"].get("name", "x")))
+    n_gen = 160 if ctx.thorough else 28
     scripts += [gen_script(rng, i) for i in range(n_gen)]
     for fn in ("c27_traces.jsonl", "c27_stress.jsonl", "c27_client.jsonl"):
         p = os.path.join(ctx.work, fn)
@@ -394,7 +410,7 @@ def run(ctx):
     with open(os.path.join(ctx.work, "c27_scripts.jsonl"), "w") as f:
         for s in scripts:
             f.write(json.dumps(s) + "\n")
-    env = {"VERIF_C27_ROUNDS": "200" if ctx.thorough else "40", "VERIF_C27_CLIENT_ROUNDS": "80" if ctx.thorough else "20"}
+    env = {"VERIF_C27_ROUNDS": "200" if ctx.thorough else "24", "VERIF_C27_CLIENT_ROUNDS": "80" if ctx.thorough else "12"}
     ctx.log("running coalescer harness")
     rc, out = ctx.go_test("internal/remoteclient", "^TestVerifC27", ["zz_verif_C27_test.go"], env=env, timeout=800)
     traces = read_jsonl(os.path.join(ctx.work, "c27_traces.jsonl"))
@@ -509,7 +525,7 @@ def run(ctx):
         "stress_messages_accepted": sum(len(a) for r in stress for a in r["accepted"]),
         "stress_batches": sum(len(r["flushes"]) for r in stress),
         "model_variant_matched": matched, "oracle_violations": n_viol,
-        "theorems": ["C27_conservation", "C27_fifo_per_caller", "C27_at_most_once", "C27_only_accepted", "C27_accepted_somewhere",
+        "theorems": ["C27_conservation", "C27_fifo_per_caller", "C27_fifo_per_caller_all_flushed", "C27_delivered_in_acceptance_order", "C27_at_most_once", "C27_only_accepted", "C27_accepted_somewhere",
                      "C27_accounted", "C27_close_refuted_one_drain", "C27_close_refuted_late_submit"],
     })
 
